@@ -143,6 +143,17 @@ structure FwdMeta (s r : Trx) (fn tn : Option Int) (pwr : Option Int) (bits : Li
   /-- version 1: C/I inside its configured window -/
   ci_ok : 1 ≤ r.hdrVer → ∃ c, m.ci = some c ∧ r.ciBase - r.ciThr ≤ c ∧ c ≤ r.ciBase + r.ciThr
 
+/-- "the simulated RSSI and ToA256 stay inside their protocol ranges" (and, on version 1, the C/I
+window inside ±1280 cB), for a burst of `len` octets with attenuation `pwr` from `s` to `r`:
+RSSI −120..−47 dBm, ToA256 a signed 16-bit value, burst length 148 or 444, a known header version -/
+def RadioOk (s r : Trx) (pwr : Option Int) (len : Nat) : Prop :=
+  (r.hdrVer = 0 ∨ r.hdrVer = 1) ∧ (len = 148 ∨ len = 444) ∧
+  (r.fakeRssi = false → ∃ a, pwr = some a ∧
+      -120 ≤ s.txPowerBase - s.txAttBase - a - 110 ∧ s.txPowerBase - s.txAttBase - a - 110 ≤ -47) ∧
+  (r.fakeRssi = true → -120 ≤ r.rssiBase - r.rssiThr ∧ r.rssiBase + r.rssiThr ≤ -47) ∧
+  -32768 ≤ r.toaBase - r.toaThr - 256 * s.ta ∧ r.toaBase + r.toaThr - 256 * s.ta ≤ 32767 ∧
+  (r.hdrVer = 1 → -1280 ≤ r.ciBase - r.ciThr ∧ r.ciBase + r.ciThr ≤ 1280)
+
 /-! ### C10: training sequences (TS 45.002 §5.2) -/
 
 /-- position (first bit, length) of the training sequence in a burst of the given type:
